@@ -47,6 +47,35 @@ def run(tier, rng, C):
         cases.append({'id': cid, 'line': G.inv_line(cid, inv, G.op_node(name)), 'show': G.show_inv(inv, 'node ' + name),
                       'nontrivial': depth >= 1})
         meta[cid] = (path, name, parts)
+    # nodes discovered through symbolic links (a linked file, a linked directory): the metadata follows the
+    # path under which the node was discovered, not the link's target
+    for i in range(60 if tier == 'quick' else 1500):
+        inv = G.Inv()
+        inv.dots = rng.random() < 0.3
+        ndoc = G.doc(['c'], [], ('m', [(S('short'), S('${_reclass_:name:short}')),
+                                       (S('p'), S('${_reclass_:name:path}|${_reclass_:environment}')),
+                                       (S('parts'), S('${_reclass_:name:parts}'))]))
+        inv.classes[('c.yml',)] = G.doc([], [], ('m', [(S('cv'), S('${_reclass_:name:full}'))]))
+        inv.nodes[('real', 'web.yml')] = ndoc
+        kind = rng.choice(['file', 'subfile', 'dir'])
+        if kind == 'file':
+            inv.compose = rng.random() < 0.5
+            path = ('lnk.yml',)
+            inv.nodes[path] = ('linkfile', 'real/web.yml', ndoc)
+        elif kind == 'subfile':
+            inv.compose = rng.random() < 0.5
+            path = (rng.choice(['s', '_s', 'a.b']), 'lnk.yaml')
+            inv.nodes[path] = ('linkfile', '../real/web.yml', ndoc)
+        else:
+            inv.compose = True        # (without composition both files would be node `web`)
+            path = ('grp', 'web.yml')
+            inv.nodes[('grp',)] = ('link', 'real')
+            inv.nodes[path] = ('virt', ndoc)
+        name, parts = spec_meta(path, inv.compose, inv.dots)
+        cid = C.case_id('l', i)
+        cases.append({'id': cid, 'line': G.inv_line(cid, inv, G.op_node(name)), 'show': G.show_inv(inv, 'node ' + name),
+                      'nontrivial': True})
+        meta[cid] = (path, name, parts)
 
     def oracle(cases, mobs, iobs):
         fails = []
@@ -81,7 +110,7 @@ def run(tier, rng, C):
                               'model': C.describe(mobs.get(c['id'], '')), 'impl': C.describe(o), 'size': len(c['line'])})
         return fails
     rule = ('%d node files at depth 0-3 over segment names with dots, leading/trailing underscores and init files, both '
-            'extensions, x compose_node_name x literal-dots flag; the node and a class reference _reclass_ values; oracle = Python '
+            'extensions, x compose_node_name x literal-dots flag, plus nodes discovered through a symlinked file or directory; the node and a class reference _reclass_ values; oracle = Python '
             'reading of the property (name, parts, path, short, uri, environment) on the implementation output; non-trivial = '
             'nested node path' % n)
     return C.standard_run(cases, rule, key_fn=lambda c, m, i, r: 'model-impl-differ', extra_oracle=oracle)
